@@ -402,6 +402,13 @@ impl Vfs {
         // Over mount would invalidate previous superblock inodes.
         if let Some(mnt) = mountpoints.get(&inode) {
             superblocks[mnt.fs_idx as usize] = None;
+            // The per-mount id_mapping of the evicted file system goes with it, otherwise a
+            // later mount allocated the same index would inherit it.
+            if mnt.fs_idx != fs_idx {
+                let mut mappings = self.mount_id_mappings.load().deref().deref().clone();
+                mappings[mnt.fs_idx as usize] = None;
+                self.mount_id_mappings.store(Arc::new(mappings));
+            }
         }
         superblocks[fs_idx as usize] = Some(Arc::new(fs));
         self.superblocks.store(Arc::new(superblocks));
@@ -452,14 +459,18 @@ impl Vfs {
         }
         let index = self.allocate_fs_idx().map_err(VfsError::FsIndex)?;
         // Store per-mount id_mapping before insert_mount_locked so that
-        // convert_entry during insertion can use it.
-        if id_mapping.is_some() {
+        // convert_entry during insertion can use it. `None` is stored as well: the
+        // index may still hold the mapping of a mount that failed or was over-mounted.
+        let mut mappings = self.mount_id_mappings.load().deref().deref().clone();
+        mappings[index as usize] = id_mapping;
+        self.mount_id_mappings.store(Arc::new(mappings));
+        if let Err(e) = self.insert_mount_locked(fs, entry, index, path) {
+            // The index stays vacant: do not leave the mapping behind.
             let mut mappings = self.mount_id_mappings.load().deref().deref().clone();
-            mappings[index as usize] = id_mapping;
+            mappings[index as usize] = None;
             self.mount_id_mappings.store(Arc::new(mappings));
+            return Err(VfsError::Mount(e));
         }
-        self.insert_mount_locked(fs, entry, index, path)
-            .map_err(VfsError::Mount)?;
 
         Ok(index)
     }
